@@ -14,6 +14,8 @@ pub enum Family {
     C04X,
     C05,
     C06,
+    /// C06 over a long history: more than 65 535 sends on one connection (the packet-identifier counter wraps)
+    C06L,
     C07,
     /// C07 by fault enumeration: per base scenario every step x {FIN, RST, write error} and every
     /// byte offset of the peer's stream x {FIN, RST}
@@ -58,6 +60,7 @@ impl Family {
             "C04X" => Family::C04X,
             "C05" => Family::C05,
             "C06" => Family::C06,
+            "C06L" => Family::C06L,
             "C07" => Family::C07,
             "C07X" => Family::C07X,
             "C08" => Family::C08,
@@ -88,6 +91,7 @@ impl Family {
             Family::C04X => "C04X",
             Family::C05 => "C05",
             Family::C06 => "C06",
+            Family::C06L => "C06L",
             Family::C07 => "C07",
             Family::C07X => "C07X",
             Family::C08 => "C08",
@@ -118,6 +122,7 @@ pub const ALL_FAMILIES: &[Family] = &[
     Family::C04X,
     Family::C05,
     Family::C06,
+    Family::C06L,
     Family::C07,
     Family::C07X,
     Family::C08,
@@ -147,6 +152,7 @@ pub fn generate(f: Family, ch: &mut Choices) -> Plan {
         Family::C04X => gen_c04x(ch),
         Family::C05 => gen_outbound(OutKind::C05, ch),
         Family::C06 => gen_outbound(OutKind::C06, ch),
+        Family::C06L => gen_c06l(ch),
         Family::C07 => gen_c07(ch),
         Family::C07X => gen_c07x(ch),
         Family::C08 => gen_outbound(OutKind::C08, ch),
@@ -2713,5 +2719,50 @@ fn gen_c13x(ch: &mut Choices) -> Plan {
     plan.peer.auto_ack = true;
     plan.tags.push(format!("enum:w{window}:kit{kit}:{}", letters.iter().map(|l| l.to_string()).collect::<Vec<_>>().join(".")));
     plan.ending = Ending::Settle;
+    plan
+}
+
+
+// ------------------------------------------------------------------------------------------
+// C06L: one long connection - the identifier counter goes once round its 16-bit range
+
+pub const C06L_SENDS: usize = 65_536 + 64;
+
+fn gen_c06l(ch: &mut Choices) -> Plan {
+    let role = pick_role(ch);
+    let mut plan = base_plan("C06L", role, ch);
+    plan.cut = Cut::All;
+    plan.p_ext = *ch.pick(&[0u32, 150]);
+    // a window of 1..4 (or the default): a few exchanges overlap all the time
+    let window = *ch.pick(&[1u16, 2, 4, 16]);
+    match role {
+        Role::S5 => plan.peer.connect.props.push((33, PropVal::U16(window))),
+        Role::S3 | Role::C3 => plan.cfg.max_send = window,
+        Role::C5 => plan.peer.connack_props.push((33, PropVal::U16(window))),
+    }
+    // three senders share the sends; most are QoS 1, now and then an exactly-once exchange or (clients) a
+    // subscribe, so that every kind of exchange draws identifiers across the wrap
+    let per = C06L_SENDS / 3 + 1;
+    for s in 0..3 {
+        let mut ops = Vec::with_capacity(per + 8);
+        let mut k = 0usize;
+        while ops.len() < per {
+            k += 1;
+            if k % 997 == 0 + s {
+                ops.push(AppOp::PubQ2 { len: 1, pid: None });
+                ops.push(AppOp::Release);
+            } else if !role.is_server() && k % 1499 == 0 {
+                ops.push(AppOp::Subscribe { n: 1, pid: None });
+            } else {
+                ops.push(AppOp::PubQ1 { len: 0, pid: None });
+            }
+        }
+        plan.senders.push(ops);
+    }
+    plan.peer.auto_ack = true;
+    plan.ending = Ending::Settle;
+    plan.max_steps = 6_000_000;
+    plan.horizon_ms = 2_500;
+    plan.tags.push(format!("long:{}:w{window}", C06L_SENDS));
     plan
 }
